@@ -519,6 +519,13 @@ func (p *parser) parseIfExpression() ast.Expression {
 	for p.peekTokenIs(token.ELSE) {
 		p.nextToken()
 
+		if expression.ElseBlock != nil {
+			// nothing may follow the else block: a second else would silently replace
+			// it, and a later else if would be tested before it
+			p.errors = append(p.errors, fmt.Sprintf("line %d: syntax error: else after the else block of an if", p.curToken.LineNumber))
+			return nil
+		}
+
 		if p.peekTokenIs(token.IF) {
 			p.nextToken()
 			ifElseExp := p.parseElseIfExpression()
